@@ -59,13 +59,18 @@ func TestC14PartialFlood(t *testing.T) {
 		// two ordinary rounds
 		net.NextStep()
 		net.Advance(nil, cfg.GenesisIn)
-		if !net.WaitHeads(all, 1, 8*time.Second) {
-			rt.Fatalf("harness: round 1 not produced (%s)", desc)
+		// two ordinary rounds before anything hostile happens; on a starved machine they can take long: such a case says nothing
+		if !net.WaitHeads(all, 1, 40*time.Second) {
+			rec.Inconclusive(desc)
+			rec.Case(desc, false, "warm-up-too-slow")
+			return
 		}
 		net.NextStep()
 		net.Advance(nil, cfg.Period)
-		if !net.WaitHeads(all, 2, 8*time.Second) {
-			rt.Fatalf("harness: round 2 not produced (%s)", desc)
+		if !net.WaitHeads(all, 2, 40*time.Second) {
+			rec.Inconclusive(desc)
+			rec.Case(desc, false, "warm-up-too-slow")
+			return
 		}
 		// round 3 becomes due with every partial towards the victim held back
 		for i := 0; i < n; i++ {
